@@ -79,6 +79,23 @@ func genC13(t *rapid.T) c13Case {
 			c.Ops = append(c.Ops, c13Op{Kind: "mature"}, c13Op{Kind: "unbond", O: o}, c13Op{Kind: "unbond", O: o})
 			continue
 		}
+		if rapid.IntRange(0, 11).Draw(t, "rejoin") == 0 {
+			// an oracle misses the signed window, is penalised, pays and comes back, confirms only what
+			// was created since it came back; the windows of everything older then pass
+			var ops []c13Op
+			for j := uint64(0); j < c.SignedWindow+2; j++ {
+				ops = append(ops, c13Op{Kind: "endblock"})
+			}
+			ops = append(ops, c13Op{Kind: "adddelegate", O: 0, Amt: rapid.SampledFrom([]int64{100, 500}).Draw(t, "radd")})
+			for j := uint64(0); j < c.SignedWindow+2; j++ {
+				if rapid.Bool().Draw(t, "rconfirm") {
+					ops = append(ops, c13Op{Kind: "confirm", O: 0, What: 4})
+				}
+				ops = append(ops, c13Op{Kind: "endblock"})
+			}
+			c.Ops = append(c.Ops, ops...)
+			continue
+		}
 		if late >= 0 && rapid.IntRange(0, 9).Draw(t, "latebond") == 0 {
 			c.Ops = append(c.Ops, c13Op{Kind: "bond", O: late, P: rapid.IntRange(0, c.N-2).Draw(t, "lp"), Amt: 500, Val: 1, What: rapid.SampledFrom([]int{0, 0, 4, 5}).Draw(t, "lwhat")})
 			continue
@@ -99,6 +116,7 @@ type c13Model struct {
 	confirmed   map[string]bool // oracle/objectkey
 	removedAt   map[int]time.Time
 	withdrawn   map[int]bool
+	joinedAt    map[int]int64 // height at which the oracle last joined (bond, or back online after paying a penalty)
 }
 
 func runC13(c c13Case, rec *ev.Recorder) *Failure {
@@ -128,7 +146,7 @@ func runC13(c c13Case, rec *ev.Recorder) *Failure {
 	if r := f.RunMsg(ctx, &crosschaintypes.MsgUpdateChainOracles{ChainName: ch, Authority: gov, Oracles: all}); !r.OK() {
 		return failf("harness", "approve: %v", r.Err)
 	}
-	m := &c13Model{bonded: map[int]bool{}, transferred: map[int]sdkmath.Int{}, slashPaid: map[int]sdkmath.Int{}, bridgerOf: map[int]string{}, extOf: map[int]string{}, confirmed: map[string]bool{}, removedAt: map[int]time.Time{}, withdrawn: map[int]bool{}}
+	m := &c13Model{bonded: map[int]bool{}, transferred: map[int]sdkmath.Int{}, slashPaid: map[int]sdkmath.Int{}, bridgerOf: map[int]string{}, extOf: map[int]string{}, confirmed: map[string]bool{}, removedAt: map[int]time.Time{}, withdrawn: map[int]bool{}, joinedAt: map[int]int64{}}
 	labels := map[string]bool{}
 	height := ctx.BlockHeight()
 	valSlashed := false
@@ -236,6 +254,7 @@ func runC13(c c13Case, rec *ev.Recorder) *Failure {
 				m.slashPaid[o] = sdkmath.ZeroInt()
 				m.bridgerOf[o], m.extOf[o] = bridger, ext
 				delete(m.withdrawn, o)
+				m.joinedAt[o] = height
 				labels["bond"] = true
 			}
 		case "adddelegate":
@@ -266,6 +285,10 @@ func runC13(c c13Case, rec *ev.Recorder) *Failure {
 				}
 				if penalty.IsPositive() {
 					labels["penalty-paid-on-adddelegate"] = true
+				}
+				if !rec0.Online && after.Online {
+					m.joinedAt[o] = height
+					labels["rejoined-after-penalty"] = true
 				}
 			}
 		case "redelegate":
@@ -324,7 +347,10 @@ func runC13(c c13Case, rec *ev.Recorder) *Failure {
 			}
 		case "confirm":
 			k.IterateOracleSets(ctx, false, func(os *crosschaintypes.OracleSet) bool {
-				if op.What <= 3 { // confirms all pending oracle sets
+				if op.What == 4 && os.Height < uint64(m.joinedAt[o]) {
+					return false // only what was created since the oracle (re)joined
+				}
+				if op.What <= 4 { // confirms all pending oracle sets
 					if msg := f.OracleSetConfirmMsg(ctx, ch, keys[o], os); msg != nil {
 						if f.RunMsg(ctx, msg).OK() {
 							m.confirmed[fmt.Sprintf("%d/%s", o, objKey("os", os.Nonce))] = true
@@ -348,7 +374,8 @@ func runC13(c c13Case, rec *ev.Recorder) *Failure {
 				k.IterateOracleSets(ctx, false, func(os *crosschaintypes.OracleSet) bool {
 					if os.Height+c.SignedWindow <= uint64(height) {
 						for i, or := range onlineBefore {
-							if uint64(or.StartHeight) <= os.Height && k.GetOracleSetConfirm(ctx, os.Nonce, keys[i].Oracle.Acc()) == nil {
+							_ = or
+							if uint64(m.joinedAt[i]) <= os.Height && k.GetOracleSetConfirm(ctx, os.Nonce, keys[i].Oracle.Acc()) == nil {
 								justified[i] = true
 							}
 						}
